@@ -113,6 +113,10 @@ func c17Run(op string, v []string, order []int, sticky bool) (obs string, fails 
 	opt.SerializeType = protocol.JSON
 	opt.Heartbeat = false
 	opt.Sticky = sticky
+	if (len(v)+order[0])%2 == 1 {
+		// per-server circuit breakers that never open: nothing changes
+		opt.GenBreaker = func() client.Breaker { return client.NewConsecCircuitBreaker(1000, time.Minute) }
+	}
 	xc := client.NewXClient("Svc", client.Failfast, client.RandomSelect, d, opt)
 	defer xc.Close()
 	ctx := context.Background()
